@@ -533,7 +533,8 @@ class SigmaFieldReferenceModifier(SigmaValueModifier[SigmaString, SigmaFieldRefe
     def modify(self, val: SigmaString) -> SigmaFieldReference:
         if val.contains_special():
             raise SigmaValueError("Field references must not contain wildcards", source=self.source)
-        return SigmaFieldReference(val.to_plain())
+        # the characters of the value are the field name, not their escaped (re-parsable) form
+        return SigmaFieldReference(val.to_plain(True))
 
 
 class SigmaExistsModifier(SigmaValueModifier[SigmaBool, SigmaExists]):
